@@ -73,7 +73,7 @@ def units():
         if not e['output'].startswith('pixman/'):
             continue
         args = shlex.split(e['command'])
-        flags = [a for a in args if a.startswith(('-D', '-m', '-f', '-pthread')) and not a.startswith(('-fdiagnostics', '-MD', '-MQ', '-MF'))]
+        flags = [a for a in args if a.startswith(('-D', '-m', '-f', '-pthread')) and not a.startswith(('-fdiagnostics', '-MD', '-MQ', '-MF', '-ftrapping-math'))]
         src = os.path.join(R, 'pixman', os.path.basename(e['file']))
         out.append((os.path.basename(e['file']), src, flags))
     if len(out) < 30:
@@ -89,6 +89,7 @@ def tree_hash():
         parts.append(_read(p))
     parts.append(_read(os.path.join(meson_dir(), 'pixman', 'config.h')))
     parts.append(_read(os.path.join(VERIF, 'engine', 'pxir.cc')))
+    parts.append('flags-v2')
     return _sha(*parts)[:24]
 
 
